@@ -54,6 +54,9 @@ def check(ctx: Ctx, rep: Report):
     rep.rule("C13.R1", "label sensors look up exactly the value of the code sensor of the same register", 22)
     rep.rule("C13.R2", "two-word bitmaps decode 65536 x high word + low word of the *_h / *_l registers; decode_bitmap visits bits 0..31", 6)
     rep.rule("C13.R3", "derived sensors equal their definition over the raw rows: reads denote rows of the same width/signedness, totals, products, documented formulas", 40)
+    rep.rule("C13.R4", "raw values are decoded from the same buffer positions the derived sensors read: Sensor.read positions at its own offset and decodes, on every path (shared with C12.R2)", 1)
+    from .c12 import sensor_read_rule
+    sensor_read_rule(ctx, rep, "C13.R4")
     tabs, dec = tables_ctx(ctx), decoders_ctx(ctx)
     for (famname, attr), rows in tabs.tables.items():
         by_id: Dict[str, Row] = {}
